@@ -69,6 +69,8 @@ type Exec struct {
 	envs     []*EnvState
 	initRun  map[*ssa.Package]bool
 	lenBounds map[int]int64
+	exactFromHex bool
+	abstractAddr map[int]bool
 	pcSet    map[int]bool
 	subst    map[int]*Term
 	simpMemo map[int]*Term
@@ -1250,13 +1252,15 @@ func (e *Exec) keyEqIface(x, y *IfaceV) *Term {
 
 func (e *Exec) valEq(a, b Value) *Term {
 	tb := e.tb
+	if !sameShape(a, b) {
+		// values of different shapes (encodings of different message types) are treated as unequal
+		e.events = append(e.events, "note: comparison of differently shaped values treated as unequal")
+		return tb.ff
+	}
 	switch x := a.(type) {
 	case *Term:
 		return tb.Eq(x, b.(*Term))
 	case *SliceV:
-		if !x.isStr {
-			e.fail("comparing slices")
-		}
 		return e.bytesEqual(x, b.(*SliceV))
 	case *StructV:
 		y := b.(*StructV)
@@ -1280,12 +1284,55 @@ func (e *Exec) valEq(a, b Value) *Term {
 		}
 		return tb.And(cs...)
 	case *PtrV:
-		return tb.Bool(x.c == b.(*PtrV).c)
+		y := b.(*PtrV)
+		if x.c != nil && y.c != nil {
+			if bx, ok := x.c.v.(*BigV); ok {
+				if by, ok := y.c.v.(*BigV); ok {
+					return tb.Eq(bx.v, by.v) // math.Int payloads inside encoded messages compare by value
+				}
+			}
+		}
+		return tb.Bool(x.c == y.c)
 	case *IfaceV:
 		return e.keyEqIface(x, b.(*IfaceV))
 	}
 	e.fail("valEq on %T", a)
 	return nil
+}
+
+func sameShape(a, b Value) bool {
+	switch x := a.(type) {
+	case *Term:
+		y, ok := b.(*Term)
+		return ok && x.w == y.w
+	case *SliceV:
+		_, ok := b.(*SliceV)
+		return ok
+	case *StructV:
+		y, ok := b.(*StructV)
+		if !ok || len(x.f) != len(y.f) {
+			return false
+		}
+		for i := range x.f {
+			if !sameShape(x.f[i].v, y.f[i].v) {
+				return false
+			}
+		}
+		return true
+	case *ArrayV:
+		y, ok := b.(*ArrayV)
+		return ok && len(x.e) == len(y.e)
+	case *ByteArrV:
+		y, ok := b.(*ByteArrV)
+		return ok && len(x.a.b) == len(y.a.b)
+	case *PtrV:
+		_, ok := b.(*PtrV)
+		return ok
+	case *IfaceV:
+		_, ok := b.(*IfaceV)
+		return ok
+	}
+	return false
 }
 
 func (e *Exec) convert(from, to types.Type, x Value) Value {
